@@ -435,9 +435,10 @@ def check(prop, tier, seed, replay=None):
         "wall_s": round(time.time() - t0, 2),
         "violations": len(violations),
     }
-    os.makedirs(os.path.join(ROOT, "evidence"), exist_ok=True)
-    with open(os.path.join(ROOT, "evidence", "%s.json" % prop), "w") as f:
-        json.dump(ev, f, indent=1, default=str)
+    if not replay:  # a replay run reproduces one stored input; it is not a coverage record
+        os.makedirs(os.path.join(ROOT, "evidence"), exist_ok=True)
+        with open(os.path.join(ROOT, "evidence", "%s.json" % prop), "w") as f:
+            json.dump(ev, f, indent=1, default=str)
     log("%s %s: proofs %d/%d %s; correspondence %d ops, %d disagreements; oracle failures %d (known %d); %.1fs"
         % (prop, tier, ev["coverage"]["discharged"], obligations, "ok" if proof_ok else "BROKEN",
            len(lines), len(disagreements), len(oracle_fail), len(known_hit), time.time() - t0))
